@@ -299,6 +299,8 @@ class World:
                 raise HarnessError(f"unreadable result from simulated process: {e!r} status={status}")
             if res.outcome[0] == "harness":
                 raise HarnessError("inside simulated process: " + str(res.outcome[1]))
+            if res.outcome[0] == "abort":
+                res.outcome = ("abort", str(res.outcome[1]).replace(self.sandbox, "<SB>"))
         self.clock_us = max(self.clock_us, res.clock_us)
         self.clock_reads = res.clock_reads
         res.start_us = start_us
